@@ -62,6 +62,9 @@ impl Spec {
     pub fn u(&self, k: &str) -> u64 {
         self.get(k).parse().expect("integer")
     }
+    pub fn i_or(&self, k: &str, d: i64) -> i64 {
+        self.kv.get(k).map(|s| s.parse().expect("integer")).unwrap_or(d)
+    }
     pub fn u_or(&self, k: &str, d: u64) -> u64 {
         self.kv.get(k).map(|s| s.parse().expect("integer")).unwrap_or(d)
     }
